@@ -11,6 +11,7 @@ import FianoModel.Amd.FletcherLemmas
 import FianoModel.Amd.Unfixed
 import FianoModel.Amd.Tie
 import FianoModel.Amd.Sample
+import FianoModel.Amd.CodeTie   -- T1 code-as-code tie (wp-t1x): audited as a tie module of this check
 
 namespace Fiano.Amd
 
